@@ -85,8 +85,13 @@ C23_WordCount ==
 C23_StripTagsUrl ==
     /\ (\A k \in 1..Len(txt) : txt[k] # cLT) => StripTags(txt) = CollapseWs(txt)
     /\ \A k \in 1..(Len(StripTags(txt)) - 1) : ~(StripTags(txt)[k] = cSP /\ StripTags(txt)[k + 1] = cSP)
-    /\ \A k \in 1..Len(UrlQuote(txt)) : UrlSafeC(UrlQuote(txt)[k]) \/ UrlQuote(txt)[k] = cPCT \/ IsDigitC(UrlQuote(txt)[k])
-                                          \/ UrlQuote(txt)[k] \in 65..70
+    /\ UrlClean(UrlQuote(txt)) /\ UrlClean(UrlQuoteQS(txt))
+    \* UTF-8: a text with a non-ASCII code point appended (Latin-1, Arabic digit, CJK, emoji)
+    /\ \A c \in {233, 1635, 26085, 128512} :
+          LET q == UrlQuote(Append(txt, c))
+          IN /\ UrlClean(q)
+             /\ Len(q) = Len(UrlQuote(txt)) + 3 * Len(Utf8(c))
+             /\ Len(Utf8(c)) = (IF c < 2048 THEN 2 ELSE IF c < 65536 THEN 3 ELSE 4)
 
 C23_WrapIdentity ==
     \* a text whose lines all fit is an acceptable wrapping of itself
@@ -108,6 +113,8 @@ C23_NumTextDef ==
     /\ IntOfText(<<48, 98, 49, 48, 49>>, 2) = 5 /\ MilliOfText(<<52, 46, 53>>) = 4500
     /\ RoundOK("floor", 1, 42550, 42500) /\ ~RoundOK("ceil", 1, 42550, 42500)
     /\ RoundOK("common", 0, 2500, 2000) /\ RoundOK("common", 0, 2500, 3000) /\ ~RoundOK("common", 0, 2600, 2000)
+    /\ Utf8(233) = <<195, 169>> /\ Utf8(26085) = <<230, 151, 165>> /\ Utf8(128512) = <<240, 159, 152, 128>>
+    /\ UrlQuote(<<99, 233>>) = <<99, 37, 67, 51, 37, 65, 57>>                 \* "c\u00e9" -> c%C3%A9
     /\ FileSizeOK(1500, FALSE, <<49, 46, 53, 32, 107, 66>>) /\ ~FileSizeOK(1500, TRUE, <<49, 46, 53, 32, 107, 66>>)
 \* constant-level facts: checked once when TLC starts
 ASSUME C23_ConvTotal == C23_ConvTotalDef
